@@ -180,18 +180,25 @@ func (commander *Commander) CreateTransaction(ctx context.Context, parameters Pa
 		return nil, err
 	}
 
-	if parameters.DryRun {
-		return log.Data.(ledger.NewTransactionLogPayload).Transaction, nil
+	// exec answers with the stored log when the idempotency key was already
+	// used: that log may have been written by a write of another kind
+	payload, ok := log.Data.(ledger.NewTransactionLogPayload)
+	if !ok {
+		return nil, NewErrConflict()
 	}
 
-	commander.monitor.CommittedTransactions(ctx, *log.Data.(ledger.NewTransactionLogPayload).Transaction, log.Data.(ledger.NewTransactionLogPayload).AccountMetadata)
+	if parameters.DryRun {
+		return payload.Transaction, nil
+	}
 
-	return log.Data.(ledger.NewTransactionLogPayload).Transaction, nil
+	commander.monitor.CommittedTransactions(ctx, *payload.Transaction, payload.AccountMetadata)
+
+	return payload.Transaction, nil
 }
 
 func (commander *Commander) SaveMeta(ctx context.Context, parameters Parameters, targetType string, targetID interface{}, m metadata.Metadata) error {
 	execContext := newExecutionContext(commander, parameters)
-	_, err := execContext.run(ctx, func(executionContext *executionContext) (*ledger.ChainedLog, chan struct{}, error) {
+	chainedLog, err := execContext.run(ctx, func(executionContext *executionContext) (*ledger.ChainedLog, chan struct{}, error) {
 		var (
 			log *ledger.Log
 			at  = ledger.Now()
@@ -226,6 +233,10 @@ func (commander *Commander) SaveMeta(ctx context.Context, parameters Parameters,
 	})
 	if err != nil {
 		return err
+	}
+	if _, ok := chainedLog.Data.(ledger.SetMetadataLogPayload); !ok {
+		// the idempotency key belongs to a write of another kind
+		return NewErrConflict()
 	}
 
 	if parameters.DryRun {
@@ -271,13 +282,19 @@ func (commander *Commander) RevertTransaction(ctx context.Context, parameters Pa
 		return nil, err
 	}
 
-	if parameters.DryRun {
-		return log.Data.(ledger.RevertedTransactionLogPayload).RevertTransaction, nil
+	payload, ok := log.Data.(ledger.RevertedTransactionLogPayload)
+	if !ok {
+		// the idempotency key belongs to a write of another kind
+		return nil, NewErrConflict()
 	}
 
-	commander.monitor.RevertedTransaction(ctx, transactionToRevert, log.Data.(ledger.RevertedTransactionLogPayload).RevertTransaction)
+	if parameters.DryRun {
+		return payload.RevertTransaction, nil
+	}
 
-	return log.Data.(ledger.RevertedTransactionLogPayload).RevertTransaction, nil
+	commander.monitor.RevertedTransaction(ctx, transactionToRevert, payload.RevertTransaction)
+
+	return payload.RevertTransaction, nil
 }
 
 func (commander *Commander) Close() {
@@ -313,7 +330,7 @@ func (commander *Commander) peekTXID() *big.Int {
 
 func (commander *Commander) DeleteMetadata(ctx context.Context, parameters Parameters, targetType string, targetID any, key string) error {
 	execContext := newExecutionContext(commander, parameters)
-	_, err := execContext.run(ctx, func(executionContext *executionContext) (*ledger.ChainedLog, chan struct{}, error) {
+	chainedLog, err := execContext.run(ctx, func(executionContext *executionContext) (*ledger.ChainedLog, chan struct{}, error) {
 		var (
 			log *ledger.Log
 			at  = ledger.Now()
@@ -346,6 +363,10 @@ func (commander *Commander) DeleteMetadata(ctx context.Context, parameters Param
 	})
 	if err != nil {
 		return err
+	}
+	if _, ok := chainedLog.Data.(ledger.DeleteMetadataLogPayload); !ok {
+		// the idempotency key belongs to a write of another kind
+		return NewErrConflict()
 	}
 
 	if parameters.DryRun {
